@@ -369,6 +369,30 @@ macro_rules! full_set {
                         }
                         vec![oint(pan), obytes(&first), oint(bad)]
                     }
+                    // search: key from seed; messages i (4 bytes LE) for i < n, signed deterministically; returns the first
+                    // message whose signature carries exactly `target` hints (last counter byte), with pk and signature
+                    "hint_weight_search" => {
+                        let n = int(&a[1]) as u32; let target = int(&a[2]) as u8;
+                        let mut pk = vec![0u8; par::PUBLICKEYBYTES]; let mut sk = vec![0u8; par::SECRETKEYBYTES];
+                        sg_::keypair(&mut pk, &mut sk, Some(bytes(&a[0])));
+                        let mut sig = vec![0u8; par::SIGNBYTES];
+                        let mut found: i64 = -1; let mut maxw = 0u8;
+                        for i in 0..n {
+                            let m = i.to_le_bytes();
+                            sg_::signature(&mut sig, &m, &sk, false);
+                            let w = sig[par::SIGNBYTES - 1];
+                            if w > maxw { maxw = w; }
+                            if w == target { found = i as i64; break; }
+                        }
+                        vec![oint(found), oint(maxw as i64), obytes(&pk), obytes(&sig)]
+                    }
+                    // key generation into caller buffers of any size and content (the slice API only requires "at least" the
+                    // standard sizes): returns both whole buffers
+                    "keypair_buf" => {
+                        let mut pk = bytes(&a[0]).to_vec(); let mut sk = bytes(&a[1]).to_vec();
+                        sg_::keypair(&mut pk, &mut sk, Some(bytes(&a[2])));
+                        vec![obytes(&pk), obytes(&sk)]
+                    }
                     "keypair_digest" => {
                         let mut pk = vec![0u8; par::PUBLICKEYBYTES]; let mut sk = vec![0u8; par::SECRETKEYBYTES];
                         sg_::keypair(&mut pk, &mut sk, Some(bytes(&a[0])));
